@@ -192,6 +192,9 @@ func (d *Decoder) readRef(tag byte) (reflect.Value, error) {
 	}
 
 	ref := d.refList[idx]
+	if !ref.IsValid() {
+		return _zeroValue, newCodecError("readRef", "ref %d refers to a value that was skipped", index)
+	}
 
 	// fmt.Printf("----> readRef: %d, %p, %v, %v\n", idx, unsafe.Pointer(ref.Pointer()), ref.Elem().Kind(), ref.Interface())
 	return ref, nil
